@@ -100,4 +100,58 @@ theorem cmpHalf_not_total : ¬ TotalCmp cmpHalf := by
   have := (h.eq_iff (4 : Int) 5).mp (by decide)
   omega
 
+/-! ### comparators with arbitrary magnitudes -/
+
+/-- A comparator that agrees in sign with a total-order comparator is one. -/
+theorem TotalCmp.of_sign {K : Type} {cmp cmp' : K → K → Int} (h : TotalCmp cmp)
+    (hlt : ∀ a b, cmp' a b < 0 ↔ cmp a b < 0) (hgt : ∀ a b, 0 < cmp' a b ↔ 0 < cmp a b) :
+    TotalCmp cmp' := by
+  refine ⟨?_, ?_, ?_⟩
+  · intro a b
+    rw [← h.eq_iff a b]
+    have h1 := hlt a b
+    have h2 := hgt a b
+    constructor <;> intro h0 <;> omega
+  · intro a b
+    rw [hgt, hlt]; exact h.gt_iff a b
+  · intro a b c h1 h2
+    rw [hlt] at h1 h2 ⊢
+    exact h.trans a b c h1 h2
+
+theorem cmpDiff_total : TotalCmp cmpDiff := by
+  refine ⟨?_, ?_, ?_⟩ <;> intros <;> simp only [cmpDiff] at * <;> omega
+
+theorem cmpScaled_total : TotalCmp cmpScaled := by
+  refine ⟨?_, ?_, ?_⟩ <;> intros <;> simp only [cmpScaled] at * <;> omega
+
+theorem cmpSgnHash_total : TotalCmp cmpSgnHash := by
+  refine cmpInt_total.of_sign ?_ ?_ <;> intro a b <;>
+    (simp only [cmpSgnHash, cmpInt]
+     (repeat' split) <;> omega)
+
+theorem cmpBytesDiff_sign : ∀ a b : List Nat,
+    (cmpBytesDiff a b < 0 ↔ cmpBytes a b < 0) ∧ (0 < cmpBytesDiff a b ↔ 0 < cmpBytes a b) := by
+  intro a
+  induction a with
+  | nil => intro b; cases b <;> simp [cmpBytesDiff, cmpBytes]; omega
+  | cons x xs ih =>
+    intro b
+    cases b with
+    | nil => simp [cmpBytesDiff, cmpBytes]; omega
+    | cons y ys =>
+      simp only [cmpBytesDiff, cmpBytes]
+      by_cases hxy : x = y
+      · subst hxy; simp only [ne_eq, not_true_eq_false, if_false, Nat.lt_irrefl, gt_iff_lt]
+        exact ih ys
+      · simp only [ne_eq, hxy, not_false_eq_true, if_true, gt_iff_lt]
+        (repeat' split) <;> constructor <;> constructor <;> intro h <;> omega
+
+theorem cmpBytesDiff_total : TotalCmp cmpBytesDiff :=
+  cmpBytes_total.of_sign (fun a b => (cmpBytesDiff_sign a b).1) (fun a b => (cmpBytesDiff_sign a b).2)
+
+theorem cmpHalfDiff_weak : WeakCmp cmpHalfDiff := by
+  have h : WeakCmp (fun a b : Int => 3 * (a - b)) := by
+    refine ⟨?_, ?_, ?_⟩ <;> intros <;> omega
+  exact h.proj (fun a : Int => a / 2)
+
 end Golib.C02
